@@ -190,3 +190,22 @@ def _formula_counts(z1: int, z2: int, z3: int, z4: int, n: int) -> bool:
     nums = [SYMBOLS.index(s) + 1 for s in seen]
     rest = [n for n in nums if n != 6]
     return total == len(zs) and rest == sorted(rest) and (6 not in nums or nums[0] == 6)
+
+
+def _formula_large_counts(z1: int, z2: int, n1: int, n2: int, sub: bool) -> bool:
+    """
+    pre: 1 <= z1 <= 103 and 1 <= z2 <= 103 and z1 != z2
+    pre: 1 <= n1 <= 40 and 0 <= n2 <= 130
+    post: _
+    """
+    # multiplicities with one, two and three digits, plain and with unicode subscripts: the formula lists each symbol once,
+    # followed by its count written digit by digit (omitted when 1)
+    els = [Element[z1]] * n1 + [Element[z2]] * n2
+    f = chemical_formula(els, subscript=sub)
+    digits = "₀₁₂₃₄₅₆₇₈₉" if sub else "0123456789"
+
+    def block(z, n):
+        return SYMBOLS[z - 1] + ("".join(digits[int(ch)] for ch in str(n)) if n > 1 else "")
+    parts = [(z1, n1)] + ([(z2, n2)] if n2 > 0 else [])
+    parts.sort(key=lambda zn: (zn[0] != 6, zn[0]))
+    return f == "".join(block(z, n) for z, n in parts)
